@@ -21,7 +21,7 @@ var namesTricky = []string{"a", "a.txt", "a/b", "a/b/c", "a-b/c", "a0", "b/", "d
 
 var payloads = [][]byte{{}, []byte("x"), []byte("hello world"), {0, 255, 0, 1, 2, 254}, []byte(strings.Repeat("0123456789abcdef", 9)), []byte("\x1f\x8b not really gzip")}
 
-var ctypes = []string{"", "text/plain", "application/octet-stream", "text/html; charset=utf-8"}
+var ctypes = []string{"", "text/plain", "application/octet-stream", "text/html; charset=utf-8", "Text/Plain; charset=\"utf-8\"", "text/x-t; b=2; a=1"}
 
 type histGen struct {
 	rng     *rand.Rand
